@@ -689,6 +689,21 @@ fn sig_sign_json(b: &[u8]) -> R {
     Ok(sum(&format!("{v:?} {:?}", cj.map(|c| fnv(c.as_bytes())))))
 }
 
+/// A peer can send a *correctly signed* event with any stored content hash: sign the event as it
+/// is (keeping whatever `hashes` it carries), then verify it.
+fn sig_resign_verify(b: &[u8]) -> R {
+    let mut obj = canonical_object(b)?;
+    let rules = rules_for(b);
+    obj.remove("signatures");
+    let mut red = ruma_common::canonical_json::redact(obj.clone(), &rules.redaction, None).map_err(|e| format!("redact-{}", variant(&e)))?;
+    ruma_signatures::sign_json(EVENT_ENTITY, &key_pair(), &mut red).map_err(|e| format!("sign-{}", variant(&e)))?;
+    if let Some(s) = red.remove("signatures") {
+        obj.insert("signatures".to_string(), s);
+    }
+    let v = ruma_signatures::verify_event(&public_keys(), &obj, &rules).map_err(|e| format!("verify-{}", variant(&e)))?;
+    Ok(format!("{v:?}"))
+}
+
 fn sig_hash_and_sign(b: &[u8]) -> R {
     let mut obj = canonical_object(b)?;
     let rules = rules_for(b);
@@ -830,6 +845,7 @@ pub static ENTRIES: &[Entry] = &[
     Entry { name: "sig.verify_event", traits: T_JSON | T_BYTES, f: sig_verify_event },
     Entry { name: "sig.sign_json", traits: T_JSON | T_BYTES, f: sig_sign_json },
     Entry { name: "sig.hash_and_sign", traits: T_JSON | T_BYTES, f: sig_hash_and_sign },
+    Entry { name: "sig.resign_verify", traits: T_JSON | T_BYTES, f: sig_resign_verify },
     Entry { name: "sig.redact", traits: T_JSON | T_BYTES, f: sig_redact },
     Entry { name: "sig.from_der", traits: T_BYTES, f: sig_from_der },
     Entry { name: "html.sanitize", traits: T_HTML, f: html_sanitize },
